@@ -69,6 +69,11 @@ func makeURLKey(u *url.URL) string {
 	}
 	// RFC 3986 §6.2.2.1: Host is lowercased.
 	hostPort := strings.ToLower(host)
+	if strings.Contains(hostPort, ":") {
+		// IPv6 literal (splitHostPort strips the brackets): keep it delimited,
+		// otherwise "[::1]:8080" and "[::1:8080]" produce the same key.
+		hostPort = "[" + hostPort + "]"
+	}
 
 	// RFC 3986 §6.2.3: Only include port if it is non-default for the scheme.
 	if port != "" && port != defaultP {
@@ -141,6 +146,11 @@ func fromHex(c byte) byte {
 
 // isUnreserved reports whether r is an unreserved character per RFC 3986 §2.3.
 func isUnreserved(r rune) bool {
+	if r >= 0x80 {
+		// Only ASCII letters and digits are unreserved: an escaped byte such as
+		// %E9 is not the same as a raw (UTF-8 encoded) letter.
+		return false
+	}
 	return unicode.IsLetter(r) || unicode.IsDigit(r) ||
 		r == '-' || r == '.' || r == '_' || r == '~'
 }
